@@ -250,6 +250,47 @@ Theorem direct_readers_see_own_history : forall sh op pre c i r,
 Proof. exact RefFacts.direct_readers_l. Qed.
 Print Assumptions direct_readers_see_own_history.
 
+(* ------------------------------------------------------------------ targets that are sub-outputs of ONE node *)
+(* The identity of a target is (owning node, path inside its output) — [tid], [tid_of].  With
+   [same_producer op] the selectable targets are the fields of ONE producer node's bundle
+   output.  Every theorem above is stated for every op, hence also for these; the three below
+   spell out what that means for siblings. *)
+Theorem sibling_identity : forall op i j,
+  same_producer op = true -> i <> j ->
+  t_node (tid_of op i) = t_node (tid_of op j) /\ tid_of op i <> tid_of op j /\ same_target op i j = false.
+Proof. exact RefFacts.sibling_identity. Qed.
+Print Assumptions sibling_identity.
+
+(* a retarget between two sub-outputs of the same node IS a retarget: the consumers are
+   evaluated in that cycle and see the new sibling's current value as modified *)
+Theorem sibling_retarget_is_a_retarget : forall sh op pre c i j,
+  wf (pre ++ [c]) -> same_producer op = true ->
+  spec_sel op pre = Some i -> spec_sel op (pre ++ [c]) = Some j -> i <> j ->
+  tvalid (spec_tgt sh j (pre ++ [c])) = true ->
+  t_node (tid_of op i) = t_node (tid_of op j) /\
+  exists r, In (0%nat, r) (o_cons (last_out sh op pre c)) /\ In (1%nat, r) (o_cons (last_out sh op pre c)) /\
+            In (3%nat, r) (o_cons (last_out sh op pre c)) /\
+            o_ref (last_out sh op pre c) = true /\
+            r_valid r = true /\ r_mod r = true /\ r_lmt r = c_t c /\
+            r_vals r = tval (spec_tgt sh j (pre ++ [c])) /\
+            (sh = ShTS -> r_upd r = tval (spec_tgt sh j (pre ++ [c])) /\ r_rem r = []).
+Proof. exact RefFacts.sibling_retarget_l. Qed.
+Print Assumptions sibling_retarget_is_a_retarget.
+
+(* ticks of the de-selected sibling never reach the consumers *)
+Theorem sibling_tick_never_reaches : forall sh op pre c i j cid r,
+  wf (pre ++ [c]) -> same_producer op = true ->
+  spec_sel op pre = Some j -> spec_sel op (pre ++ [c]) = Some j ->
+  i <> j -> ticks c i = true -> ticks c j = false ->
+  In (cid, r) (o_cons (last_out sh op pre c)) ->
+  t_node (tid_of op i) = t_node (tid_of op j) /\
+  (c_force c = true \/ (c_poke c = true /\ (cid = 1%nat \/ cid = 2%nat \/ c_nest c = true))) /\
+  r_mod r = false /\ r_upd r = [] /\ r_rem r = [] /\
+  r_valid r = tvalid (spec_tgt sh j pre) /\
+  r_vals r = (if tvalid (spec_tgt sh j pre) then tval (spec_tgt sh j pre) else []).
+Proof. exact RefFacts.sibling_tick_never_reaches_l. Qed.
+Print Assumptions sibling_tick_never_reaches.
+
 (* ------------------------------------------------------------------ non-vacuity *)
 (* A history with: selection of A, ticks of A and B, a same-value selector tick, a
    retarget to B (valid, not ticking in that cycle), a tick of the unselected A. *)
@@ -346,6 +387,25 @@ Example ex_chained_case_file :
    [20; 0; 4; 1; 1; 4; 1; 0; 200; 1; 0; 200; 0];
    [20; 0; 6; 1; 1; 6; 1; 0; 202; 1; 0; 202; 0];
    [20; 0; 7; 1; 1; 7; 1; 0; 300; 1; 0; 300; 0]].
+Proof. vm_compute. reflexivity. Qed.
+
+(* targets = fields of ONE producer (sixth header field 1; op 10 in the model): retarget from
+   field a to its sibling b at t=3 (b valid since t=1, not ticking), then a's tick at t=4 does
+   not reach the consumers, b's tick at t=5 does *)
+Example ex_sibling_hyps :
+  same_producer 10 = true /\ spec_sel 10 ex_pre = Some 0%nat /\
+  spec_sel 10 (ex_pre ++ [ex_retarget]) = Some 1%nat /\
+  tvalid (spec_tgt ShTS 1 (ex_pre ++ [ex_retarget])) = true /\
+  o_cons (last_out ShTS 10 ex_pre ex_retarget) =
+    let r := mkR true true 5 [(0, 6)] [(0, 6)] [] in [(0%nat, r); (1%nat, r); (3%nat, r)].
+Proof. vm_compute. repeat split; reflexivity. Qed.
+
+Example ex_sibling_case_file :
+  filter (fun l => (hdz l =? 20) && (nthz 1 l =? 0))
+    (run_ref [[1; 1; 10; 0; 0; 1]; [2; 1; 1; 100]; [2; 2; 1; 200]; [2; 0; 2; 1]; [2; 0; 3; 0]; [2; 1; 4; 101]; [2; 2; 5; 201]]) =
+  [[20; 0; 2; 1; 1; 2; 1; 0; 100; 1; 0; 100; 0];
+   [20; 0; 3; 1; 1; 3; 1; 0; 200; 1; 0; 200; 0];
+   [20; 0; 5; 1; 1; 5; 1; 0; 201; 1; 0; 201; 0]].
 Proof. vm_compute. reflexivity. Qed.
 
 (* the decoder meets the hypothesis of every theorem on a concrete case file, and the
